@@ -317,8 +317,17 @@ def c13_5(ctx):
     if ok:
         v = deref(ctx, e, rr[0].value, rr[0])
         inter = [n for n in ast.walk(e.node) if isinstance(n, ast.Call) and isinstance(n.func, ast.Attribute) and n.func.attr == 'intersection']
-        ok = len(inter) == 1 and unparse(inter[0].func.value) == 'self.contained_labels()' and unparse(inter[0].args[0]) == e.call_params[0].arg
-        if ok:
+        # "some label of the expression is a register name", tested as register operands match: without regard to letter case
+        anyq = isinstance(v, ast.Call) and unparse(v.func) == 'any' and len(v.args) == 1 and isinstance(v.args[0], (ast.GeneratorExp, ast.ListComp)) \
+            and len(v.args[0].generators) == 1 and not v.args[0].generators[0].ifs and unparse(v.args[0].generators[0].iter) == 'self.contained_labels()' \
+            and unparse(v.args[0].elt) == f'is_register_name({unparse(v.args[0].generators[0].target)}, {e.call_params[0].arg})'
+        ok = anyq
+        if anyq:
+            from rules.shared import register_name_test
+            register_name_test(ctx)
+        elif len(inter) == 1 and unparse(inter[0].func.value) == 'self.contained_labels()' and unparse(inter[0].args[0]) == e.call_params[0].arg:
+            ok = False     # exact set intersection: `A` is not recognised when the register is configured as `a`
+        if False:
             # the result is "the intersection is not empty", however that is spelled
             r_e = resolver(ctx, e, inline=True)
             it = unparse(inter[0])
@@ -503,17 +512,54 @@ def c13_state(ctx):
     state_discipline(ctx, ('bespokeasm.assembler.model', 'bespokeasm.assembler.bytecode.generator'))
 
 
+def c13_no_abort(ctx):
+    ctx.rule('C13.13', 'an operand form that does not fit says "no match": it never ends the assembly, and never dies on ill-formed text', 8)
+    from engine.cfg import is_sys_exit_call
+    base = ctx.repo.cls('bespokeasm.assembler.model.operand.Operand')
+    n = 0
+    for c in base.all_subclasses():
+        for mname in ('parse_operand', '_parse_bytecode_parts'):
+            f = c.methods.get(mname)
+            if f is None:
+                continue
+            n += 1
+            ab = [x for x in ast.walk(f.node) if isinstance(x, ast.Raise) or (isinstance(x, ast.Call) and is_sys_exit_call(x))]
+            ctx.check(not ab, f'match:no-abort:{c.name}.{mname}', f.site(ab[0]) if ab else f.site(),
+                      'while matching, an operand form only ever answers "match" or "no match": a later alternative or variant may accept the text',
+                      f'{unparse(ab[0])[:90] if ab else ""}: the statement is rejected although another variant may accept it')
+    if n < 8:
+        ctx.err('match:no-abort', '-', 'at least 8 operand matchers', f'{n}')
+    # expression-bearing forms that build their parts directly: ill-formed expression text is "no match"
+    for q in ('bespokeasm.assembler.model.operand.types.numeric_enumeration.NumericEnumerationOperand.parse_operand',
+              'bespokeasm.assembler.model.operand.types.numeric_expression.NumericExpressionOperand.parse_operand'):
+        f = ctx.repo.func(q)
+        built = [x for x in ast.walk(f.node) if isinstance(x, ast.Call) and ('ByteCodePart' in unparse(x.func) or unparse(x.func) == 'self._parse_bytecode_parts')]
+        covered = True
+        for b in built:
+            inside = False
+            for t in ast.walk(f.node):
+                if isinstance(t, ast.Try) and any(b is y for s_ in t.body for y in ast.walk(s_)):
+                    for h in t.handlers:
+                        if h.type is not None and 'SyntaxError' in unparse(h.type) and len(h.body) >= 1 and isinstance(h.body[-1], ast.Return) \
+                                and (h.body[-1].value is None or (isinstance(h.body[-1].value, ast.Constant) and h.body[-1].value.value is None)):
+                            inside = True
+            covered = covered and inside
+        ctx.check(bool(built) and covered, f'match:ill-formed-is-no-match:{f.cls.name}', f.site(),
+                  'the expression parts are built inside `try ... except SyntaxError: return None`', f'{len(built)} construction(s), covered: {covered}')
+
+
 def c13_vetoes(ctx):
     ctx.rule('C13.10', 'an operand form is refused only by its own pattern (no shortcut in front of it)', 5)
     from rules.shared import no_pre_pattern_veto
     no_pre_pattern_veto(ctx, 'bespokeasm.assembler.model.operand')
 
-RULES = [c13_1, c13_dispatch, c13_2, c13_3, c13_registers, c13_ids, c13_4, c13_5, c13_6, c13_7, c13_8, c13_macros, c13_state, c13_vetoes]
+RULES = [c13_1, c13_dispatch, c13_2, c13_3, c13_registers, c13_ids, c13_4, c13_5, c13_6, c13_7, c13_8, c13_macros, c13_state, c13_vetoes, c13_no_abort]
 
 _GI = 'assembler/bytecode/generator/instruction.py'
 _OPF = 'assembler/model/operand_parser.py'
 _OSF = 'assembler/model/operand_set.py'
 MUTANTS = [
+    V('c13-indirect-offset-aborts', 'assembler/model/operand/types/indirect_register.py', "                    # an offset was written but this operand is not configured to have one: it is not this\n                    # operand (another variant or operand of the set may accept it)\n                    return None", "                    sys.exit(f'ERROR: {line_id} - An offset was provided for indirect register operand')", 'C13.13'),
     V('c13-register-set-lowercased', 'assembler/model/__init__.py', "        self._registers = set(registers if registers is not None else [])", "        self._registers = {str(r).lower() for r in (registers if registers is not None else [])}", 'C13.12'),
     V('c13-operand-id-stringified', 'assembler/model/operand/__init__.py', "        self._id = operand_id\n", "        self._id = str(operand_id)\n", 'C13.11'),
     V('c13-indirect-needs-leading-bracket', 'assembler/model/operand/types/indirect_register.py', "        # first check that operand is what we expect\n        match = re.match(\n            self._parse_pattern,", "        if not operand.lstrip().startswith('['):\n            return None\n        match = re.match(\n            self._parse_pattern,", 'C13.10'),
